@@ -370,8 +370,11 @@ class Ctx:
             "known_findings_hit": self.known_hits,
             "repo": REPO,
         }
-        os.makedirs(os.path.join(VERIF, "evidence"), exist_ok=True)
-        open(os.path.join(VERIF, "evidence", f"{self.pid}.json"), "w").write(
+        # evidence/ describes /repo itself; self-test runs against scratch copies write elsewhere
+        evdir = os.path.join(VERIF, "evidence") if os.path.abspath(REPO) == "/repo" else \
+            os.path.join(VERIF, "work", "selftest-evidence")
+        os.makedirs(evdir, exist_ok=True)
+        open(os.path.join(evdir, f"{self.pid}.json"), "w").write(
             json.dumps(ev, indent=1, sort_keys=True, default=str) + "\n")
         shutil.rmtree(self.work, ignore_errors=True)
         return 1 if self.violations else 0
